@@ -73,7 +73,7 @@ CHECKS = {
     "C13": dict(
         level="fault_enumeration",
         technique="fault injection at the PuLP API boundary: complete configuration x behaviour grid per generated structure + drawn fault sequences, against the lossless/FCFS/optimal oracles",
-        text="For each generated knotted structure the 13-cell grid {HiGHS selected, CBC selected} x {ok, raises PulpSolverError, NotSolved, Infeasible, Unbounded, Undefined} + {no solver} is enumerated completely through both entry points, then a drawn 1-4 step fault sequence runs on one shared solver object. Faults are injected by replacing pulp.HiGHS_CMD / pulp.LpSolverDefault from the harness.",
+        text="For each generated knotted structure the 15-cell grid {HiGHS selected, CBC selected} x {ok, ok with near-integral variable values, raises PulpSolverError, NotSolved, Infeasible, Unbounded, Undefined} + {no solver} is enumerated completely through both entry points, then a drawn 1-4 step fault sequence runs on one shared solver object. Faults are injected by replacing pulp.HiGHS_CMD / pulp.LpSolverDefault from the harness.",
         note=TRUST + "HiGHS itself is absent from the sandbox: the 'HiGHS selected' cell is a scripted stand-in, so the selection/fallback logic is exercised, not HiGHS. Only the listed fault behaviours are injected.",
         ref="3 C13"),
     "C14": dict(
